@@ -112,6 +112,9 @@ class Prog:
         txt = self.item_text_plain()
         if self.p.get("hyg", False):
             return f"macro_rules! define_item {{ ($p:ident) => {{\n{txt}\n}} }}\ndefine_item!(a2);\n"
+        if self.p.get("hygtr", False):
+            txt = txt.replace("::entrait::entrait(pub T", "::entrait::entrait(pub $tr", 1)
+            return f"macro_rules! define_item {{ ($tr:ident) => {{\n{txt}\n}} }}\ndefine_item!(T);\n"
         return txt
 
     def item_text_plain(self):
